@@ -27,6 +27,9 @@ type Decoder struct {
 
 	// how many decoders of enclosing objects this one works for (see DecodeNestedObject)
 	depth int
+
+	// how many objects enclose the one being decoded (see maxObjectNesting)
+	nesting int
 }
 
 // NewDecoder returns a new decoder that reads from r.
